@@ -339,6 +339,40 @@ func Reenter(opts []cat.Opts, cb bool) []*cat.Catalog {
 	return out
 }
 
+// GroupCycle is the motif "a cycle that runs through a value group that already has members":
+// c1 and c4 feed group T7@g, c2 consumes the group and provides T1, c3 needs T1 and feeds the
+// group too - whichever of c2 / c3 is registered last closes the cycle and must be rejected
+// without disturbing the members registered before; under As the members are given under two
+// interfaces. Invokes of the group and of T1 from every scope.
+func GroupCycle(opts []cat.Opts, cb bool) []*cat.Catalog {
+	var out []*cat.Catalog
+	for vi := 0; vi < 2; vi++ {
+		member := func() cat.Result {
+			if vi == 1 {
+				return cat.Result{Ks: []string{"I0@g", "I1@g"}, M: "grp", CT: "T7"}
+			}
+			return cat.Result{Ks: []string{"T7@g"}, M: "grp"}
+		}
+		gk := []string{"T7@g", "I1@g"}[vi]
+		for _, p1 := range places() {
+			for _, p3 := range places() {
+				for _, s2 := range []string{"r", "a", "b"} {
+					c := &cat.Catalog{Parent: copyTree(chainTree), Fns: map[string]*cat.Fn{}}
+					c.Fns["c1"] = ctor(p1, nil, member())
+					c.Fns["c2"] = ctor(Place{s2, false}, []cat.Param{par(gk, "grp", 1)}, one("T1"))
+					c.Fns["c3"] = ctor(p3, []cat.Param{par("T1", "req", 0)}, member())
+					c.Fns["c4"] = ctor(p3, nil, member())
+					c.Fns["i1"] = inv(par(gk, "grp", 1))
+					c.Fns["i2"] = inv(par("T1", "req", 0))
+					c.Note = fmt.Sprintf("groupcycle v=%d c1=%v c3=%v c2=%s", vi, p1, p3, s2)
+					out = append(out, finish(c, opts, cb))
+				}
+			}
+		}
+	}
+	return out
+}
+
 // Digraphs is the cycle motif: n constructors, constructor i provides T<i> and has one
 // parameter per out-edge of a digraph on n nodes (self-loops included); every digraph with
 // index in [lo, hi) out of 2^(n*n); placements and edge kind chosen from the index and r.
